@@ -1,4 +1,4 @@
-/-! Prototype: data model, assemble, nodal balance (C01). Core Lean only. -/
+/-! Scratch proof from the design round (not framework code): core of nodal balance (C01). Core Lean only. -/
 
 abbrev Vec := Nat → Rat
 
@@ -98,7 +98,5 @@ theorem nodal_balance_core (names : List String) (hnd : names.Nodup) (M : List M
   intro a _
   congr 2
   rw [List.filter_filter]
-  apply List.filter_congr
-  intro r _
 
 #print axioms nodal_balance_core
